@@ -23,7 +23,7 @@ type c10Ctx struct {
 	w       *hz.World
 	ps      hz.PeerSpec
 	mon     *hz.PeerMon
-	in, out *hz.RConn
+	in, out *hz.RConn // written by the script (possibly its own goroutine): see conns()
 	stopW   atomic.Bool
 	wg      sync.WaitGroup
 }
@@ -221,7 +221,7 @@ func c10World(t *testing.T, p c10Params, instants *[]int64) rt.Result {
 
 		// what state is each connection in, according to the approved transitions?
 		state := map[string]string{}
-		for _, tr := range w.Trans {
+		for _, tr := range w.TransSnapshot() {
 			state[tr.Dir] = tr.To
 		}
 		type exp struct {
@@ -230,11 +230,20 @@ func c10World(t *testing.T, p c10Params, instants *[]int64) rt.Result {
 			want bool
 		}
 		var exps []exp
-		if quiesced {
-			for dir, c := range map[string]*hz.RConn{"in": x.in, "out": x.out} {
-				if c == nil {
-					continue
+		// With the stop issued concurrently the same expectation holds for scripts in
+		// which the remote only ever sends legal progress: a connection whose approved
+		// state was already OpenSent or later stays in one of the three states until it
+		// is stopped, whatever transition is in flight.
+		benign := map[string]bool{"inbound-passive": true, "inbound-active": true, "outbound": true, "outbound-slow-dial": true,
+			"collision": true, "collision-simul": true, "writers": true, "writers-out": true, "hold-zero": true}
+		if quiesced || benign[p.Script] {
+			latest := map[string]*hz.RConn{}
+			for _, c := range w.Conns() { // race-free view of the connections made so far
+				if !c.Refused {
+					latest[c.Dir] = c
 				}
+			}
+			for dir, c := range latest {
 				eof, _ := c.EOF()
 				st := state[dir]
 				exps = append(exps, exp{c, dir, !eof && !c.OwnClosed() && (st == "openSent" || st == "openConfirm" || st == "established")})
@@ -242,10 +251,6 @@ func c10World(t *testing.T, p c10Params, instants *[]int64) rt.Result {
 		}
 		wasUp := x.mon.Up()
 		before := w.Now()
-		nmsg := map[*hz.RConn]int{}
-		for _, e := range exps {
-			nmsg[e.c] = len(e.c.Msgs())
-		}
 		if p.Stop == "Close" {
 			w.Close()
 		} else {
@@ -286,7 +291,10 @@ func c10World(t *testing.T, p c10Params, instants *[]int64) rt.Result {
 		}
 		w.Settle()
 		for _, e := range exps {
-			ms := e.c.Msgs()[nmsg[e.c]:]
+			// judged on the whole history of the connection: corebgp sends no other
+			// NOTIFICATION in these scripts, and a Cease written an instant before
+			// the stop (collision loser) still counts
+			ms := e.c.Msgs()
 			ns := notifsOf(ms)
 			if e.want {
 				ceaseChecked++
